@@ -169,6 +169,13 @@ func (e *FuncEnc) encodeCall(in ssa.Instruction, c *ssa.CallCommon, res ssa.Valu
 	sig := c.Signature()
 	rts := resultTypes(sig)
 
+	if e.CallHook != nil {
+		if c.IsInvoke() {
+			e.CallHook(e, in, shortType(c.Value.Type())+"."+c.Method.Name(), append([]ssa.Value{c.Value}, c.Args...), append([]string{e.v(c.Value)}, args...))
+		} else if g := c.StaticCallee(); g != nil {
+			e.CallHook(e, in, g.String(), c.Args, args)
+		}
+	}
 	if c.IsInvoke() {
 		recv := e.v(c.Value)
 		e.safety("nilinvoke", e.describe(c.Value)+"."+c.Method.Name(), not(eq(sx("if_tag", recv), "0")), in.Pos())
